@@ -2050,21 +2050,21 @@ class UTPM(Ring, RawAlgorithmsMixIn):
             y_shp = y.data.shape
 
             assert x_shp[:2] == y_shp[:2]
-            assert len(y_shp[2:]) == 1
 
-            out_shp = x_shp + y_shp[-1:]
+            # operands of any rank are flattened, as in numpy.outer
+            out_shp = x_shp[:2] + (int(numpy.prod(x_shp[2:])), int(numpy.prod(y_shp[2:])))
             out = cls(cls.__zeros__(out_shp, dtype = numpy.promote_types(x.data.dtype, y.data.dtype)))
             cls._outer( x.data, y.data, out = out.data)
 
         elif isinstance(x, UTPM) and isinstance(y, numpy.ndarray):
             x_shp = x.data.shape
-            out_shp = x_shp + y.shape[-1:]
+            out_shp = x_shp[:2] + (int(numpy.prod(x_shp[2:])), numpy.size(y))
             out = cls(cls.__zeros__(out_shp, dtype = numpy.promote_types(x.data.dtype, y.dtype)))
             cls._outer_non_utpm_y( x.data, y, out = out.data)
 
         elif isinstance(x, numpy.ndarray) and isinstance(y, UTPM):
             y_shp = y.data.shape
-            out_shp = y_shp[:2] + x.shape[-1:] + y_shp[-1:]
+            out_shp = y_shp[:2] + (numpy.size(x), int(numpy.prod(y_shp[2:])))
             out = cls(cls.__zeros__(out_shp, dtype = numpy.promote_types(x.dtype, y.data.dtype)))
             cls._outer_non_utpm_x( x, y.data, out = out.data)
 
@@ -2101,7 +2101,14 @@ class UTPM(Ring, RawAlgorithmsMixIn):
         if not isinstance(ybar,cls):
             ybar = cls(numpy.zeros((D,P) + y.shape,dtype=z.data.dtype))
 
-        cls._outer_pullback(zbar.data, x.data, y.data, z.data, out = (xbar.data, ybar.data))
+        # operands of any rank are flattened, as in numpy.outer
+        xbar_data = xbar.data.reshape((D,P,-1))
+        ybar_data = ybar.data.reshape((D,P,-1))
+        cls._outer_pullback(zbar.data, x.data.reshape((D,P,-1)), y.data.reshape((D,P,-1)), z.data, out = (xbar_data, ybar_data))
+        if not numpy.shares_memory(xbar_data, xbar.data):
+            xbar.data[...] = xbar_data.reshape(xbar.data.shape)
+        if not numpy.shares_memory(ybar_data, ybar.data):
+            ybar.data[...] = ybar_data.reshape(ybar.data.shape)
         return (xbar,ybar)
 
 
